@@ -177,6 +177,8 @@ func (ex *Exec) checkObligation(cond *Term, kind, msg string, pos token.Pos) {
 	}
 	if kind == "assert" || ob.Result != "holds" {
 		ex.oblig = append(ex.oblig, ob)
+	} else {
+		ex.autoHeld++
 	}
 	// continue on the side where cond holds, if any
 	if cond.IsConst() {
